@@ -513,6 +513,8 @@ class DimArrayOnDisk(GetSetDelAttrMixin, NetCDFVariable, AbstractDimArray):
                         positions = np.arange(*idx.indices(stop))
                     else:
                         positions = np.atleast_1d(np.asarray(idx))
+                        if positions.dtype.kind == 'b':
+                            positions = np.where(positions)[0] # a mask selects existing positions
                     new = positions >= size
                     if np.all(new):
                         self.axes[ax.name][idx] = axis
